@@ -232,8 +232,11 @@ pub fn run(ctx: &Ctx) {
     ctx.sse_vec("unicode_names_in_error_paths", "names x^k + c^n for c in {2,3,4-byte, ASCII}, k 0..3, byte length up to 150: duplicated across sections, with a duplicate public key, duplicated inside a section", uni, check_text);
     // "every keyring the tool itself writes parses back": the real `key generate -o` on files with and without a final newline (shared with C14)
     { use super::c14::{History, Initial};
-      let hs: Vec<History> = [(true, true), (false, false), (false, true), (true, false)].iter().enumerate().map(|(i, &(trailing_newline, with_private))| History { initial: Initial::Keyring { entries: 1 + i % 2, trailing_newline, comments: i % 2 == 0, with_private }, gens: vec![(format!("written-{}", i), "pw".into()), ("second key".into(), "".into())], seed: ctx.seed + i as u64, use_keys: i == 0, quota_before: None, stale_new_password: false }).collect();
+      let hs: Vec<History> = [(true, true), (false, false), (false, true), (true, false)].iter().enumerate().map(|(i, &(trailing_newline, with_private))| History { initial: Initial::Keyring { entries: 1 + i % 2, trailing_newline, comments: i % 2 == 0, with_private }, gens: vec![(format!("written-{}", i), "pw".into()), ("second key".into(), "".into())], seed: ctx.seed + i as u64, use_keys: i == 0, quota_before: None, stale_new_password: false, via_symlink: i == 3 }).collect();
       ctx.sse_vec("cli_written_keyrings_parse_back", "`key generate -o F` twice into keyrings with/without final newline, comments, private keys", hs, super::c14::check); }
+    // very long runs of ignorable lines (a parser that recurses per skipped line runs out of stack)
+    let big: Vec<TextCase> = [10_000usize, 200_000, 3_000_000].iter().flat_map(|&n| [TextCase { text: format!("{}[Key]\nName = a\nPublicKey = {}\n", "\n".repeat(n), vals().pk[0]) }, TextCase { text: format!("[Key]\nName = a\n{}PublicKey = {}\n{}", "# c\n".repeat(n), vals().pk[0], " \n".repeat(n / 2)) }]).collect();
+    ctx.sse_vec("many_ignorable_lines", "10^4 .. 3*10^6 consecutive blank / comment lines around a valid entry: accepted, entry found", big, |t: &TextCase| { let kr = Keyring::new(&t.text).map_err(|e| format!("a keyring with many blank or comment lines was rejected: {}", e))?; ensure!(kr.get_key("a").is_some(), "entry lost"); ok(true, "many-lines") });
     ctx.pbt("random_texts", ctx.n(30_000, 800_000), || prop_oneof!["\\PC{0,200}", "(\\[Key\\]|Name|PublicKey|PrivateKey|=| |\t|\n|\r\n|#|[a-zA-Z0-9+/]{1,48}){0,40}"].prop_map(|text| TextCase { text }), check_text);
     let mut pk = Vec::new();
     for len in 0..=60usize { for g in [false, true] { pk.push(PkCase::Blob { seed: ctx.seed ^ len as u64, len, good_checksum: g }); } }
